@@ -30,6 +30,23 @@ theorem excName_isException (k : Exc) : excIsA (excName k) "Exception" = true :=
 def callOf (p : String × Val) : Call :=
   if p.1 == "_check" then .check p.2 else .schema p.2
 
+/-- the name of the model's FSM state -/
+def stName : St → Val
+  | .valid => Val.str "valid"
+  | .expired => Val.str "expired"
+
+/-- … and back (`_check_state` refuses anything else) -/
+def stOf (v : Val) : Option St :=
+  if v = Val.str "valid" then some .valid else if v = Val.str "expired" then some .expired else none
+
+/-- the saved state of the model as the triple the method receives -/
+def savedOf (sv : SavedExp) : Saved := ⟨stName sv.st, sv.remaining, sv.input⟩
+
+/-- what a restore leaves in the object -/
+def restoredObj (o : Obj) : RestoreRes → Obj
+  | .restored s => { o with state := stName s.st, sdataInput := s.input, output := s.out }
+  | _ => o
+
 /-- the meaning of the primitives (everything but `event`) -/
 def prims0 : VPrims where
   contains S v :=
@@ -54,6 +71,13 @@ def prims0 : VPrims where
   event _ _ := M.pure ()
   eventData := M.gets (·.eventValue)
   baseInit kw := M.modify fun o => { o with initdef := kw }
+  fsmRestore sv := fun o =>                       -- FSM._restore_state: the model's `fsmRestore`
+    match stOf sv.state with
+    | none => (o, .raise "EdzedCircuitError")
+    | some st =>
+      match Validate.fsmRestore ⟨⟨none, none, none⟩, none, o.expired⟩ ⟨st, sv.ts, sv.sdataInput⟩ with
+      | .failed => (o, .raise "EdzedCircuitError")
+      | r => (restoredObj o r, .next ())
 
 /-- `self.event('put', value=v)` reaches the handler `_event_put` (SBlock.event is tied in C11) -/
 def prims : VPrims :=
@@ -420,6 +444,71 @@ theorem expInit_eq (c : Cfg) (initdef expired : Val) (o : Obj) (r : Obj × Out U
         simp [constructExp, hh, hu, Validate.validate, Validate.calls, hx, expCtorOutcome, objInit,
           initState]
 
+/-- `fsmRestore` looks at the configuration only through the expired value -/
+theorem fsmRestore_congr (e e' : ExpCfg) (h : e.expired = e'.expired) (sv : SavedExp) :
+    Validate.fsmRestore e sv = Validate.fsmRestore e' sv := by
+  unfold Validate.fsmRestore Validate.calcOutput
+  simp only [h]
+
+/-- how a method ends, the class of the exception put aside -/
+inductive OutKind where
+  | falls | returns | raises
+  deriving DecidableEq, Repr
+
+def outKind : Out Unit → OutKind
+  | .next _ => .falls
+  | .ret _ => .returns
+  | .raise _ => .raises
+
+theorem prims_fsmRestore : prims.fsmRestore = prims0.fsmRestore := rfl
+
+/-- `InputExp._restore_state` (the repaired method) IS the model's `restoreExp`: the saved value of a
+    'valid' state is validated FIRST – a missing or refused one raises before the FSM restores anything –
+    and what the FSM then takes over is the converted value; the calls of user code agree -/
+theorem expRestoreState_eq (e : ExpCfg) (o : Obj) (h : Agrees e.v o) (he : o.expired = e.expired)
+    (sv : SavedExp) :
+    (TrV.expRestoreState prims (savedOf sv) o).1 =
+        restoredObj { o with calls := o.calls ++ (restoreExp e sv).2.map tagOf } (restoreExp e sv).1 ∧
+    outKind (TrV.expRestoreState prims (savedOf sv) o).2 =
+        (match (restoreExp e sv).1 with | .failed => OutKind.raises | _ => OutKind.falls) := by
+  have h1 : Val.pyEq (Val.str "valid") (Val.str "valid") = true := by decide
+  have h2 : Val.pyEq (Val.str "expired") (Val.str "valid") = false := by decide
+  have s1 : stOf (Val.str "valid") = some .valid := by decide
+  have s2 : stOf (Val.str "expired") = some .expired := by decide
+  have hfs : ∀ (o' : Obj) (sv' : SavedExp), o'.expired = e.expired →
+      prims0.fsmRestore (savedOf sv') o' =
+        (match Validate.fsmRestore e sv' with
+         | .failed => (o', Out.raise "EdzedCircuitError")
+         | r => (restoredObj o' r, Out.next ())) := by
+    intro o' sv' ho'
+    have hc := fsmRestore_congr ⟨⟨none, none, none⟩, none, o'.expired⟩ e ho' sv'
+    rcases sv' with ⟨st', rem', inp'⟩
+    cases st' <;> simp only [prims0, savedOf, stName, s1, s2, hc]
+  rcases sv with ⟨st, rem, input⟩
+  unfold TrV.expRestoreState
+  rw [prims_fsmRestore]
+  cases st with
+  | expired =>
+    have := hfs o ⟨.expired, rem, input⟩ he
+    simp only [savedOf, stName] at this
+    cases hr : Validate.fsmRestore e ⟨.expired, rem, input⟩ <;>
+      simp [savedOf, stName, h2, restoreExp, this, hr, restoredObj, outKind]
+  | valid =>
+    cases input with
+    | none => simp [savedOf, stName, h1, restoreExp, restoredObj, outKind]
+    | some v =>
+      have hval := validate_is_model e.v o h v
+      cases hv : (validateT e.v v).1 with
+      | none =>
+        simp [savedOf, stName, h1, hval, hv, outcome, resultX, restoreExp, Validate.validate, Validate.calls,
+          restoredObj, outKind]
+      | some w =>
+        have := hfs { o with calls := o.calls ++ (validateT e.v v).2.map tagOf } ⟨.valid, rem, some w⟩ he
+        simp only [savedOf, stName] at this
+        cases hr : Validate.fsmRestore e ⟨.valid, rem, some w⟩ <;>
+          simp [savedOf, stName, h1, hval, hv, outcome, resultX, restoreExp, Validate.validate, Validate.calls,
+            this, hr, restoredObj, outKind]
+
 /-- `cond_put` IS the validating part of the model's `putExp`: the answer of the condition and the
     value kept in `sdata['input']` (nothing is stored for a refused value) -/
 theorem condPut_eq (e : ExpCfg) (s : ExpState) (o : Obj) (h : Agrees e.v o) (v : Val)
@@ -443,11 +532,6 @@ theorem condPut_no_value (o : Obj) (hv : o.eventValue = none) :
   have hd : prims.eventData = M.gets (·.eventValue) := rfl
   unfold TrV.condPut
   simp [hd, hv]
-
-/-- the name of the model's FSM state -/
-def stName : St → Val
-  | .valid => Val.str "valid"
-  | .expired => Val.str "expired"
 
 /-- `calc_output` IS the model's `calcOutput` -/
 theorem calcOutput_eq (e : ExpCfg) (st : St) (input : Option Val) (o : Obj) (hs : o.state = stName st)
